@@ -308,7 +308,7 @@ orc_compiler_c_assemble (OrcCompiler *compiler)
             get_varname(s1, compiler, i);
             get_varname_stride(s2, compiler, i);
             ORC_ASM_CODE(compiler,
-                "    ptr%d = ORC_PTR_OFFSET(%s, %s * j);\n",
+                "    ptr%d = ORC_PTR_OFFSET(%s, (orc_int64)%s * j);\n",
                 i, s1, s2);
           }
           break;
@@ -318,7 +318,7 @@ orc_compiler_c_assemble (OrcCompiler *compiler)
             get_varname(s1, compiler, i),
             get_varname_stride(s2, compiler, i),
             ORC_ASM_CODE(compiler,
-                "    ptr%d = ORC_PTR_OFFSET(%s, %s * j);\n",
+                "    ptr%d = ORC_PTR_OFFSET(%s, (orc_int64)%s * j);\n",
                 i, s1, s2);
           }
           break;
